@@ -388,56 +388,136 @@ func c06Publish(c *Ctx, rd string) {
 		{"(*lib/audit.Info).Publish", cfgField("Amqp", "URL"), "AMQP broker"},
 		{"(*lib/audit.Info).AppendTo", cfgField("AuditFile"), "audit file"},
 	}
-	for _, s := range sinks {
-		calls := p.callsIn(fn, s.callee)
-		key := "internal/signinit.PublishAudit sink " + s.label
-		if len(calls) != 1 {
-			c.Fail(rd, key, p.Pos(fn.Pos()), fmt.Sprintf("%d calls to %s, expected 1", len(calls), s.callee))
-			continue
-		}
-		call := calls[0]
+	// hostCheck: in `host`, which calls `call` (the sink, or a helper that delivers to it), a nil return is
+	// reachable only when the call returned nil or - for the sink itself - the sink is not configured
+	hostCheck := func(host *ssa.Function, call ssa.CallInstruction, cfg func(ssa.Value) bool) (bool, []string, string) {
 		sb := call.Block()
 		ev := errValueOf(call)
 		if ev == nil {
-			c.Fail(rd, key, p.Pos(call.Pos()), "the sink's error is discarded: a failed audit write does not abort the signature")
-			continue
+			return false, nil, "the sink's error is discarded: a failed audit write does not abort the signature"
 		}
-		del := passEdges(fn, Guard{Match: func(f Fact) bool { return f.Kind == IsNil && stripConv(f.V) == ev }})
-		// "not configured" edges: Ifs on the sink's configuration values, on the side that cannot reach the sink
-		for _, b := range fn.Blocks {
-			ifi, ok := b.Instrs[len(b.Instrs)-1].(*ssa.If)
-			if !ok {
-				continue
-			}
-			onCfg := false
-			for _, f := range append(factsOf(ifi.Cond, true), factsOf(ifi.Cond, false)...) {
-				if s.cfg(f.V) {
-					onCfg = true
-				}
-				if bo, ok := f.V.(*ssa.BinOp); ok && (s.cfg(bo.X) || s.cfg(bo.Y)) {
-					onCfg = true
+		del := passEdges(host, Guard{Match: func(f Fact) bool { return f.Kind == IsNil && stripConv(f.V) == ev }})
+		// the call's own result returned directly is the call's verdict
+		for _, r := range returnsOf(host) {
+			if ei := errResultIndex(host.Signature); ei >= 0 && ei < len(r.Results) && stripConv(retVal(r, ei)) == ev {
+				for si := range r.Block().Succs {
+					_ = si
 				}
 			}
-			if !onCfg {
-				continue
-			}
-			for si, succ := range b.Succs {
-				if !reach(fn, []*ssa.BasicBlock{succ}, nil, nil)[sb.Index] {
-					del[edge{b.Index, si}] = true
+		}
+		if cfg != nil {
+			for _, b := range host.Blocks {
+				ifi, ok := b.Instrs[len(b.Instrs)-1].(*ssa.If)
+				if !ok {
+					continue
+				}
+				onCfg := false
+				for _, f := range append(factsOf(ifi.Cond, true), factsOf(ifi.Cond, false)...) {
+					if cfg(f.V) {
+						onCfg = true
+					}
+					if bo, ok := f.V.(*ssa.BinOp); ok && (cfg(bo.X) || cfg(bo.Y)) {
+						onCfg = true
+					}
+				}
+				if !onCfg {
+					continue
+				}
+				for si, succ := range b.Succs {
+					if !reach(host, []*ssa.BasicBlock{succ}, nil, nil)[sb.Index] {
+						del[edge{b.Index, si}] = true
+					}
 				}
 			}
 		}
 		pred := map[int]int{}
-		seen := reach(fn, []*ssa.BasicBlock{fn.Blocks[0]}, del, pred)
-		bad := false
-		var path []string
-		for _, r := range p.successReturns(fn) {
+		seen := reach(host, []*ssa.BasicBlock{host.Blocks[0]}, del, pred)
+		ei := errResultIndex(host.Signature)
+		for _, r := range p.successReturns(host) {
+			// `return call(...)`: the return carries the call's own error
+			if ei >= 0 && stripConv(retVal(r, ei)) == ev {
+				continue
+			}
 			if seen[r.Block().Index] {
-				bad = true
-				path = p.witness(fn, pred, r.Block().Index)
+				return false, p.witness(host, pred, r.Block().Index), ""
 			}
 		}
-		c.Check(!bad, rd, key, p.Pos(call.Pos()), "PublishAudit succeeds only if this sink succeeded or is not configured", "PublishAudit can return nil although the configured "+s.label+" sink was skipped or failed", path...)
+		return true, nil, ""
+	}
+	for _, s := range sinks {
+		key := "internal/signinit.PublishAudit sink " + s.label
+		// the sink is called by PublishAudit itself or by a helper of its package that PublishAudit calls (two levels)
+		type link struct {
+			host *ssa.Function
+			call ssa.CallInstruction
+		}
+		var chain []link
+		host := fn
+		found := false
+		for depth := 0; depth < 3 && !found; depth++ {
+			if calls := p.callsIn(host, s.callee); len(calls) == 1 {
+				chain = append(chain, link{host, calls[0]})
+				found = true
+				break
+			} else if len(calls) > 1 {
+				break
+			}
+			// exactly one same-package callee that reaches the sink
+			var next *ssa.Function
+			var via ssa.CallInstruction
+			cnt := 0
+			for _, b := range host.Blocks {
+				for _, in := range b.Instrs {
+					ci, ok := in.(ssa.CallInstruction)
+					if !ok {
+						continue
+					}
+					g := ci.Common().StaticCallee()
+					if g == nil || pkgOf(g) != pkgOf(fn) || len(g.Blocks) == 0 {
+						continue
+					}
+					reaches := false
+					for h := range p.moduleReach([]*ssa.Function{g}, nil) {
+						if pkgOf(h) == pkgOf(fn) && len(p.callsIn(h, s.callee)) > 0 {
+							reaches = true
+						}
+					}
+					if reaches {
+						cnt++
+						next, via = g, ci
+					}
+				}
+			}
+			if cnt != 1 {
+				break
+			}
+			chain = append(chain, link{host, via})
+			host = next
+		}
+		if !found {
+			c.Fail(rd, key, p.Pos(fn.Pos()), fmt.Sprintf("PublishAudit (and the helpers of its package it calls) does not deliver to %s exactly once", s.callee))
+			continue
+		}
+		okAll := true
+		var path []string
+		why := ""
+		for li, l := range chain {
+			cfg := s.cfg
+			if li != len(chain)-1 {
+				cfg = nil // a helper call is not skipped for configuration reasons at this level
+			}
+			ok, pth, w := hostCheck(l.host, l.call, cfg)
+			c.Analysed(p.FName(l.host))
+			if !ok {
+				okAll, path, why = false, pth, w
+			}
+		}
+		last := chain[len(chain)-1]
+		if why != "" {
+			c.Fail(rd, key, p.Pos(last.call.Pos()), why)
+			continue
+		}
+		c.Check(okAll, rd, key, p.Pos(last.call.Pos()), "PublishAudit succeeds only if this sink succeeded or is not configured", "PublishAudit can return nil although the configured "+s.label+" sink was skipped or failed", path...)
 	}
 	// E2 in the sink implementations
 	for _, spec := range []string{"lib/audit.(*Info).AppendTo", "lib/audit.(*Info).Publish", "lib/audit.(*Info).Marshal"} {
@@ -621,15 +701,55 @@ func c06Content(c *Ctx, rf string) {
 		{"(*lib/audit.Info).SetX509Cert", "Leaf", "X.509 certificate"},
 		{"(*lib/audit.Info).SetPgpCert", "PgpKey", "PGP key"},
 	} {
-		calls := p.callsIn(init, m.callee)
 		key := "internal/signinit.Init records " + m.label
+		// the recording happens in Init itself or in a helper of its package that Init calls once and whose
+		// failure it hands on
+		host, via := init, ssa.CallInstruction(nil)
+		calls := p.callsIn(init, m.callee)
+		if len(calls) == 0 {
+			for _, b := range init.Blocks {
+				for _, in := range b.Instrs {
+					ci, ok := in.(ssa.CallInstruction)
+					if !ok {
+						continue
+					}
+					g := ci.Common().StaticCallee()
+					if g == nil || pkgOf(g) != pkgOf(init) || len(g.Blocks) == 0 {
+						continue
+					}
+					if cs := p.callsIn(g, m.callee); len(cs) > 0 && via == nil {
+						host, via, calls = g, ci, cs
+					}
+				}
+			}
+		}
 		if len(calls) == 0 {
 			c.Fail(rf, key, p.Pos(init.Pos()), "the "+m.label+" is never recorded in the audit record")
 			continue
 		}
+		// an operand of the helper is what Init passed for it
+		resolve := func(v ssa.Value) ssa.Value {
+			if pa, ok := v.(*ssa.Parameter); ok && via != nil {
+				for k, hp := range host.Params {
+					if hp == pa && k < len(via.Common().Args) {
+						return via.Common().Args[k]
+					}
+				}
+			}
+			return v
+		}
+		if via != nil {
+			// Init does not succeed when the helper failed
+			if ev := errValueOf(via); ev != nil {
+				if r, path := p.failureReachesSuccess(init, ev); r != nil {
+					c.Fail(rf, key, p.Pos(via.Pos()), "the helper that records the certificate can fail and Init still succeeds (return at "+p.Pos(r.Pos())+")", path...)
+					continue
+				}
+			}
+		}
 		_, fld, base := p.fieldLoad(calls[0].Common().Args[1])
-		src, idx := resultOf(base)
-		recv, _ := resultOf(calls[0].Common().Args[0])
+		src, idx := resultOf(resolve(base))
+		recv, _ := resultOf(resolve(calls[0].Common().Args[0]))
 		c.Check(fld == m.field && src == ik && idx == 0 && recv == nw, rf, key, p.Pos(calls[0].Pos()), "recorded from the certificate InitKey loaded, into this request's Info", "the recorded "+m.label+" is not the one loaded for this key / not recorded in this request's Info")
 		// recorded whenever present: a success return is reached only through the call or through an edge
 		// on which that field of the certificate bundle was found nil
@@ -639,7 +759,7 @@ func c06Content(c *Ctx, rf string) {
 				del[edge{ci.Block().Index, si}] = true
 			}
 		}
-		for _, b := range init.Blocks {
+		for _, b := range host.Blocks {
 			ifi, ok := b.Instrs[len(b.Instrs)-1].(*ssa.If)
 			if !ok {
 				continue
@@ -650,7 +770,7 @@ func c06Content(c *Ctx, rf string) {
 						continue
 					}
 					if _, fl, bs := p.fieldLoad(f.V); fl == m.field {
-						if s2, i2 := resultOf(bs); s2 == ik && i2 == 0 {
+						if s2, i2 := resultOf(resolve(bs)); s2 == ik && i2 == 0 {
 							del[edge{b.Index, si}] = true
 						}
 					}
@@ -658,10 +778,10 @@ func c06Content(c *Ctx, rf string) {
 			}
 		}
 		pred := map[int]int{}
-		seen := reach(init, []*ssa.BasicBlock{init.Blocks[0]}, del, pred)
+		seen := reach(host, []*ssa.BasicBlock{host.Blocks[0]}, del, pred)
 		bad := ""
 		var path []string
-		for _, r := range p.successReturns(init) {
+		for _, r := range p.successReturns(host) {
 			inCallBlock := false
 			for _, ci := range calls {
 				if ci.Block() == r.Block() {
@@ -670,7 +790,7 @@ func c06Content(c *Ctx, rf string) {
 			}
 			if seen[r.Block().Index] && !inCallBlock {
 				bad = p.Pos(r.Pos())
-				path = p.witness(init, pred, r.Block().Index)
+				path = p.witness(host, pred, r.Block().Index)
 			}
 		}
 		c.Check(bad == "", rf, key+" whenever the key has one", p.Pos(calls[0].Pos()), "every success path records it or found it absent", "Init can succeed ("+bad+") on a path that neither records the "+m.label+" nor found the key to have none: for a key that carries both kinds of certificate the record names only one of them, and a signature made under the other is not attributable from the audit trail", path...)
